@@ -331,6 +331,37 @@ def step (s : St) (op impl : String) : St × StepOut :=
             fails := fails ++ [("trailer_roundtrip", "-", s!"decoded trailers differ: got {implP} expected ok h={fmtHdrs exp}")]
       return fails
     (s, { model := s!"w={modelW} | p={modelP}", tags := [if mres.isSome then "trlwrite:ok" else "trlwrite:none"], fails := fails })
+  | "resphdr" :: args =>
+    let H := parseHdrsOp (argOf args "H")
+    let lim := intOf (argOf args "lim")
+    let st := intOf (argOf args "st")
+    let parts := impl.splitOn " | "
+    let implW := ((parts.headD "").drop 2).toString
+    let (ifs, iflag) := parseFieldToks ((words implW).drop 1)
+    let byNV := fun (a b : List Nat × List Nat) => ltBytes a.1 b.1 || (a.1 == b.1 && ltBytes a.2 b.2)
+    let mfs := responseFields st H
+    -- same list up to the iteration order of the header map (":status" first)
+    -- keys with a byte ≥ 0x80 are lower-cased by Unicode tables (strings.ToLower): outside the model
+    let nonAscii := H.any (fun (kv : List Nat × List (List Nat)) => !isASCII kv.1)
+    let modelW := if nonAscii then implW
+                  else if implW.startsWith "ok" && mfs.head? == ifs.head? && sortBy byNV mfs == sortBy byNV ifs then implW
+                  else "ok " ++ " ".intercalate (mfs.map (fmtFieldTok []))
+    let modelP := if implW.startsWith "ok" then fmtRspRes (updateResponseFromHeaders (extOf iflag) lim ifs false) else "-"
+    let implP := ((parts.getD 1 "").drop 2).toString
+    let emitted := H.filter (fun (kv : List Nat × List (List Nat)) => !(B "Trailer:").isPrefixOf kv.1)
+    let clVals := (emitted.filter (fun (kv : List Nat × List (List Nat)) => lower kv.1 == B "content-length")).flatMap (·.2)
+    let validMsg := validHeaderMap emitted && clVals.length ≤ 1 && clVals.all (fun v => !v.isEmpty && v.all (fun b => 48 ≤ b && b ≤ 57) && decVal v < 2 ^ 63) &&
+      100 ≤ st && st ≤ 999
+    let connSpecific := emitted.any (fun (kv : List Nat × List (List Nat)) => connectionSpecific.contains (lower kv.1) ||
+      (lower kv.1 == B "te" && kv.2.any (· != B "trailers")))
+    let fails : List Fail :=
+      if validMsg && implW.startsWith "ok" && implP.startsWith "E:" then
+        [("response_output_accepted", if connSpecific && (implP == "E:name" || implP == "E:te") then "response_connection_specific" else "-",
+          s!"responseWriter.writeHeader output rejected by updateResponseFromHeaders: {implP}")]
+      else if validMsg && implP.startsWith "ok" && !implP.startsWith s!"ok code={fmtInt st} " then
+        [("response_roundtrip", "-", s!"status differs: {implP} expected {fmtInt st}")]
+      else []
+    (s, { model := s!"w={modelW} | p={modelP}", tags := ["resphdr"] ++ (if (declaredTrailers H).isEmpty then [] else ["resphdr:declared"]), fails := fails })
   | "respwrite" :: args =>
     let parts := impl.splitOn " | "
     let implW := ((parts.headD "").drop 2).toString
